@@ -1,13 +1,22 @@
 """C01/C08: digit-vector layer (src/low/easy/relic_bn_*_low.c, src/dv/relic_dv_util.c), value contracts."""
-import os
-CONF = os.environ.get('VERIF_BN_CONF', 'w8')
-N = {'w8': 13, 'p128': 65, 'base': 65, 'p256': 65}[CONF]   # >= RLC_BN_SIZE+3 and >= RLC_DIG+1 (vc_mul_dig)
+NB = {'w8': 13, 'p128': 9, 'base': 37}   # unwinding bound >= RLC_BN_SIZE + 3
 L3 = [('none', 'VC_L_NONE'), ('ca', 'VC_L_CA'), ('cb', 'VC_L_CB'), ('ab', 'VC_L_AB'), ('cab', 'VC_L_CAB')]
 L2 = [('none', 'VC_L_NONE'), ('ca', 'VC_L_CA')]
 ADD = 'src/low/easy/relic_bn_add_low.c'
 
 
 def register(add):
+    for conf, tier in (('w8', 'quick'),):
+        register_conf(add, conf, tier)
+
+
+def register_conf(add0, CONF, TIER):
+    N = NB[CONF]
+
+    def add(name, *a, **k):
+        k.setdefault('tier', TIER)
+        k.setdefault('bound_note', 'size <= RLC_BN_SIZE symbolic, loops unwound %d times with unwinding assertions, configuration %s' % (N, CONF))
+        return add0(name + '@' + CONF, *a, **k)
     for f in ('bn_addn_low', 'bn_subn_low'):
         for sh, mac in L3:
             add('%s.%s' % (f, sh), ['C01', 'C08'], f, sources=[ADD], headers=['bn_low.h'], defines=['VC_LSHAPE=' + mac],
@@ -37,6 +46,3 @@ def register(add):
     low('dv_copy', DV, 'dig_t *c; const dig_t *a; size_t n;', 'dv_copy(c, a, n)', shapes=[('none', 'VC_L_NONE')])
     low('dv_cmp', DV, 'const dig_t *a, *b; size_t n;', 'dv_cmp(a, b, n)', shapes=[('none', 'VC_L_NONE'), ('ab', 'VC_L_AB')])
     low('dv_zero', DV, 'dig_t *a; size_t n;', 'dv_zero(a, n)', shapes=[('none', 'VC_L_NONE')])
-    low('bn_mul1_low', MUL, 'dig_t *c; const dig_t *a; dig_t d; size_t n;', 'bn_mul1_low(c, a, d, n)')
-    low('bn_mula_low', MUL, 'dig_t *c; const dig_t *a; dig_t d; size_t n;', 'bn_mula_low(c, a, d, n)', shapes=[('none', 'VC_L_NONE')])
-    low('bn_div1_low', DIV, 'dig_t *c, *d; const dig_t *a; dig_t b; size_t n;', 'bn_div1_low(c, d, a, b, n)')
